@@ -1010,8 +1010,10 @@ FLOORS = {
     # measured on the pinned tree: quick 5134 / 17 / 42 / 12, thorough 26699 / 18 / 261 / 66;
     # instance-count floors at ~90 %, guard regions at the number found today (DESIGN: 17; the
     # thorough tier's propagating literal allocator reaches an 18th, in copy_assign)
-    'quick': {'instances': 4600, 'guards': 17, 'alloc_sites': 38, 'raii': 10},
-    'thorough': {'instances': 24000, 'guards': 18, 'alloc_sites': 235, 'raii': 60},
+    # (well below what the pinned tree gives - 5134 / 17 / 42 / 12 quick - so that a refactoring of the
+    # header that removes a helper or merges two guarded regions is not taken for a broken analysis)
+    'quick': {'instances': 3500, 'guards': 12, 'alloc_sites': 28, 'raii': 8},
+    'thorough': {'instances': 18000, 'guards': 12, 'alloc_sites': 170, 'raii': 45},
 }
 
 
